@@ -130,6 +130,22 @@ def run(ctx):
             if bad:
                 ctx.violation(dict(kind='benign-parse-does-more-than-read', file=os.path.basename(f), events=bad[:10],
                                    how='ReplayParser(file).get_info() under sys.addaudithook (tools/c18.audited_parse)'))
+        # (1b) "an explicitly requested dump" is requested by THAT parse only: a later parse without a dump request opens nothing but its own
+        # replay and the bundle, and the earlier dump keeps its content
+        from replay_parser import ReplayParser as RP0
+        dump = os.path.join(tmp, 'dumps', 'a.bin'); os.makedirs(os.path.dirname(dump))
+        fa = files[-1]; fb = os.path.join(tmp, 'benign2.wotreplay'); battle.write_simple(fb, 'wot', '1_10_0', random.Random(4))
+        RP0(fa, strict=False, raw_data_output=dump).get_info()
+        before = open(dump, 'rb').read()
+        for later in (fb, files[0]):
+            out, ev, marks = audited_parse(later)
+            ctx.case(('dump-then-parse', os.path.basename(later)))
+            bad = judge(later, ev, [bundled])
+            after = open(dump, 'rb').read() if os.path.exists(dump) else None
+            if bad or after != before:
+                ctx.violation(dict(kind='later-parse-touches-earlier-dump', first=os.path.basename(fa), later=os.path.basename(later), events=bad[:10], dump_changed=after != before,
+                                   how='ReplayParser(first, raw_data_output=f).get_info(); then ReplayParser(later).get_info() under the audit hook: it may open only its replay and the bundle, and f keeps its content'))
+                break
         # (2) hostile pickles in every pickled argument
         wv = battle.wows_versions(); picks = wv if not q else battle.representative_versions(9)[::2]
         orig_dumps = pickle.dumps
